@@ -34,6 +34,12 @@ def run(ctx) -> None:
     ctx.rule("R4", "calendar from the given date unless pinned; future guard keeps the old calendar")
     ctx.rule("R5", "pinned calendar fields with 0 in their domain are carried over by `is None`, not truthiness")
     ctx.rule("R6", "accepted --tag values are keys of the tag map and words of the TAG regex")
+    ctx.rule("R7", "prerequisite: BUILD is advanced on every bump, never reset, stays a string (C17/R1-R3)")
+    ctx.rule("R8", "calendar parts 'taken from the given date': both calendar producers bind each field to its strftime directive, quarter = ((month-1)//3)+1")
+    from sa.report import run_prerequisite
+    run_prerequisite(ctx, "C17", ("R1", "R2", "R3"), "R7")
+    from checks.c14 import calendar_producers_rule
+    calendar_producers_rule(ctx, "R8")
 
     # ---------------------------------------------------------------- R1
     inc = prog.function("v2version._incr_numeric")
